@@ -24,6 +24,38 @@ def peel(t):
             return t
 
 
+def elem(t):
+    """(collection, index) if t reads one element, whichever way it is spelled: Vec's Index::index call or a slice place
+    projection, through any number of borrows / Deref::deref / as_slice coercions"""
+    t = peel(t)
+    if t[0] == "call" and isinstance(t[1], str) and (t[1].endswith("::index") or t[1].endswith("::index_mut")) and len(t[2]) == 2:
+        return coll_base(t[2][0]), t[2][1]
+    if t[0] == "index" and len(t) == 3:
+        return coll_base(t[1]), t[2]
+    return None
+
+
+def coll_base(t):
+    while True:
+        t = peel(t)
+        if t[0] == "call" and isinstance(t[1], str) and len(t[2]) == 1 and t[1].split("::")[-1] in ("as_slice", "as_ref", "as_mut_slice", "deref_mut", "as_mut"):
+            t = t[2][0]
+        else:
+            return t
+
+
+def canon(t):
+    """term with every element read rewritten to ('elem', collection, index) and borrows around it removed, site-free:
+    two spellings of the same read compare equal"""
+    if not isinstance(t, tuple) or not t:
+        return t
+    if t[0] in ("ref", "deref", "index", "call"):
+        e = elem(t)
+        if e is not None:
+            return ("elem", canon(strip_site(e[0])), canon(strip_site(e[1])))
+    return tuple(canon(x) for x in t)
+
+
 def is_ok_of(t, callee, arg_pred=None):
     """t == payload(Ok, call callee(args))"""
     t = peel(t)
